@@ -15,9 +15,9 @@ for f in $(git status --porcelain | grep '^??' | awk '{print $2}' | grep '_test.
 echo "--- demo WITH the change (must fail)"
 ( eval "$DEMO" ) > /tmp/seed/$ID.demo-with.log 2>&1; echo "exit=$?"; tail -3 /tmp/seed/$ID.demo-with.log | cut -c1-200
 echo "--- demo WITHOUT the change (must pass)"
-git stash -q
+git apply -R "$OUT/patch.diff" || { echo "cannot revert the patch in the worktree"; exit 2; }
 ( eval "$DEMO" ) > /tmp/seed/$ID.demo-without.log 2>&1; echo "exit=$?"; tail -2 /tmp/seed/$ID.demo-without.log | cut -c1-200
-git stash pop -q
+git apply "$OUT/patch.diff"
 echo "--- checks against the change"
 cd /repo && git diff --quiet || { echo "/repo dirty"; exit 2; }
 git apply "$OUT/patch.diff" || { echo "patch does not apply to /repo"; exit 2; }
